@@ -146,6 +146,10 @@ pub fn all() -> Vec<CheckSpec> {
 pub fn selftest(specs: &[CheckSpec], args: &[String]) -> i32 {
     match args.first().map(|s| s.as_str()) {
         Some("determinism") => {
+            if !crate::x86mem::selftest() {
+                eprintln!("x86 memory-operand decoder self-test failed");
+                return 2;
+            }
             let n: u64 =
                 args.get(1).and_then(|s| s.parse().ok()).unwrap_or(200);
             let seed = driver::verif_seed();
